@@ -446,6 +446,11 @@ def is_instance(value: Any, type_: Any) -> bool:
         # NewType may be nested in a complex type (top level ones are unwrapped early)
         type_ = unwrap_newtype(type_)
 
+    if type_ is None:
+        # Builtin generics keep a bare None argument as is (tuple[None, ...]),
+        # in an annotation it stands for NoneType
+        return value is None
+
     # We do not want Python implicit isinstance(True, int) == True
     if type_ is int and (value is True or value is False):
         return False
